@@ -33,6 +33,10 @@ ASSUMPTIONS = [
     "reduce_to_site_topology: topology compared at input site positions only",
     "adjacent output edges with equal parent and child count as redundant information (C doc: "
     "'Simplify the tables to remove redundant information')",
+    "'simplifying again changes nothing' is not re-asserted on a case that already failed with "
+    "node:unreferenced_kept* or reduce:tree_without_*_site (the second pass removing that residue is a "
+    "consequence of the same defect)",
+    "individual parents that point at a removed individual may become NULL or be dropped",
 ]
 
 IND_PAT = {"A": [0, -1, 1, 1, 2, 0], "B": [-1, 2, 0, -1, 0, 2]}
@@ -539,7 +543,12 @@ def check_case(ctx, samples, opts, report, counters=None):
     for (p, c), ivs in seen.items():
         ivs.sort()
         for (l1, r1), (l2, r2) in zip(ivs, ivs[1:]):
-            if r1 == l2:
+            if r1 == l2 and o["keep_input_roots"]:
+                # squashing is not part of the property; with keep_input_roots the root's edges are
+                # emitted per input segment (and a second simplify reproduces them): counted only
+                if counters is not None:
+                    counters["dontcare_unsquashed_input_root_edges"] = counters.get("dontcare_unsquashed_input_root_edges", 0) + 1
+            elif r1 == l2:
                 fail("edges:not_squashed" + (":keep_input_roots" if o["keep_input_roots"] else ""),
                      f"output edges ({l1},{r1}) and ({l2},{r2}) for parent {p} "
                      f"child {c} abut")
